@@ -13,6 +13,7 @@ type instOpts struct {
 	net       bool
 	time      bool
 	mapRanges bool
+	mapSites  []rangeSite
 	extra     map[string]string
 }
 
@@ -57,13 +58,21 @@ func instrument(name string, src []byte, o instOpts) ([]byte, map[string]int, er
 		edits = append(edits, edit{start, end, fmt.Sprintf("%s %q", alias, repl)})
 		stats["imports"]++
 	}
-	if o.mapRanges {
-		me, n, err := mapRangeEdits(fset, f, src)
-		if err != nil {
-			return nil, nil, err
+	header := ""
+	if o.mapRanges && len(o.mapSites) > 0 {
+		for i, site := range o.mapSites {
+			txt, err := rewriteMapRange(site, i)
+			if err != nil {
+				return nil, nil, err
+			}
+			edits = append(edits, edit{site.forPos, site.lbrace + 1, txt})
+			stats["map_ranges"]++
 		}
-		edits = append(edits, me...)
-		stats["map_ranges"] += n
+		// generic helpers need a newer language version for this file; a
+		// //line directive keeps the original line numbers
+		pend := fset.Position(f.Name.End()).Offset
+		edits = append(edits, edit{pend, pend, `; import simsync "verif/simkit/simsync"`})
+		header = "//go:build go1.21\n\n//line " + name + ":1\n"
 	}
 	// count constructs that stay nondeterministic, for the evidence file
 	ast.Inspect(f, func(n ast.Node) bool {
@@ -88,10 +97,20 @@ func instrument(name string, src []byte, o instOpts) ([]byte, map[string]int, er
 	if len(edits) == 0 {
 		return src, stats, nil
 	}
+	for _, cg := range f.Comments {
+		for _, c := range cg.List {
+			if header != "" && len(c.Text) > 10 && c.Text[:10] == "//go:build" {
+				return nil, nil, fmt.Errorf("file already has a //go:build line; map range rewriting needs manual care")
+			}
+		}
+	}
 	sort.Slice(edits, func(i, j int) bool { return edits[i].start > edits[j].start })
 	out := append([]byte(nil), src...)
 	for _, e := range edits {
 		out = append(out[:e.start], append([]byte(e.text), out[e.end:]...)...)
+	}
+	if header != "" {
+		out = append([]byte(header), out...)
 	}
 	return out, stats, nil
 }
